@@ -41,13 +41,15 @@ theorem v5_flow_bound (bs : Bytes) (m : V5.Msg) (h : V5.decode bs = .ok m) :
         have hlen := V5.readFields_len _ _ _ _ hh
         simp only at hlen
         split at h
-        · simp only [Except.ok.injEq] at h; rw [← h]; simp
+        · simp at h
         · generalize hrf : V5.readFlows (V5.widths Gen.Layouts.v5Record) (V5.fieldAt hd 1) r [] = res at h
           obtain ⟨fs, ok⟩ := res
           have hb := V5.readFlows_bound _ _ _ _ _ _ hrf
           simp only [List.length_nil, Nat.zero_add, Nat.sub_zero] at hb
           have hfl : m.flows = fs := by
-            cases ok <;> simp only [Except.ok.injEq] at h <;> rw [← h]
+            cases ok
+            · simp at h
+            · simp only [Except.ok.injEq] at h; rw [← h]
           rw [hfl]
           refine ⟨by omega, ?_⟩
           omega
